@@ -296,7 +296,9 @@ fn make_atom(l: Srcloc, v: Vec<u8>) -> SExp {
         let want_name = v[1..].to_vec();
         for p in prims() {
             if want_name == p.0 {
-                return p.1;
+                // The operator's number, at the place in the text where its
+                // name was written (the table's own entries point into *prims*).
+                return p.1.with_loc(l);
             }
         }
 
